@@ -35,6 +35,12 @@ def scenario(i, kind, action, nesting, pos):
         act = {"act": reg, "name": hname, "beh": {"id": hid + 9, "ret": "last"}, "prec": 115, "type": "SETTER" if kind == "setter" else "CALC", "assoc": "LEFT"}
     else:
         act = {"act": action, "name": "r%dx" % i, "beh": {"id": hid + 8, "ret": "last"}, "prec": 115, "type": "CALC", "assoc": "LEFT"}
+        # the new name is used at once, from inside the handler that registered it (evaluated, or only parsed)
+        use = {"reg_fn": "4 + r%dx(3) * 2", "reg_prefix": "4 + (r%dx 3) * 2", "reg_postfix": "4 + (3 r%dx) * 2", "reg_infix": "4 + (1 r%dx 3) * 2"}[action] % i
+        if (nesting + pos) % 3 != 2:
+            act["then"] = use
+        else:
+            act["then_parse"] = use
     # nesting: the handler's action is `exec_fresh` of a program calling another re-entrant handler
     chain = act
     for lvl in range(nesting - 1, 0, -1):
@@ -81,9 +87,11 @@ def scenario(i, kind, action, nesting, pos):
         follow = {"op": "exec", "text": "3 r%dx" % i, "tag": "follow"}
     elif action == "reg_infix":
         follow = {"op": "exec", "text": "1 r%dx 3" % i, "tag": "follow"}
+    if follow and act.get("then_parse"):
+        follow = {"op": "parse", "text": act["then_parse"], "want": "e", "tag": "follow"}
     if follow:
         steps.append(follow)
-    exp = {"result": ["n", "37", 0], "follow": ["n", "3", 0] if follow else None, "nesting": nesting, "action": action, "text": text}
+    exp = {"then_parse": act.get("then_parse"), "result": ["n", "37", 0], "follow": ["n", "3", 0] if follow and not act.get("then_parse") else None, "nesting": nesting, "action": action, "text": text}
     return steps, exp
 
 
@@ -109,6 +117,15 @@ def check_scenario(rec, follow_rec, exp):
             bad.append((["reentrant-parse-wrong"], "parse_expression called from a %s handler returned %s" % (e["k"], json.dumps(r))))
         if e["act"] == "exec_fresh" and isinstance(r, dict) and "ok" in r and r["ok"][0] == "n" and exp["nesting"] == 1 and r["ok"] != ["n", "7", 0]:
             bad.append((["reentrant-exec-wrong"], "execute called from a %s handler returned %s, expected 7" % (e["k"], json.dumps(r))))
+        if e["act"].startswith("reg_") and isinstance(r, dict) and exp["action"] != "rereg_self":
+            if exp.get("then_parse"):
+                want = {"ok": follow_rec.get("expr")} if follow_rec is not None and follow_rec.get("p") == "ok" else None
+                if want is None:
+                    bad.append((["registration-from-handler-lost"], "a program using the name registered from inside the handler does not parse afterwards: %s" % json.dumps(follow_rec)[:200]))
+                elif r != want:
+                    bad.append((["registered-in-handler-unusable-in-handler"], "a %s handler registered a new name and at once parsed `%s` (nested parse_expression): got %s, but after the handler returned the same text parses to %s" % (e["k"], exp["then_parse"], json.dumps(r), json.dumps(want))))
+            elif r != {"ok": ["n", "10", 0]}:
+                bad.append((["registered-in-handler-unusable-in-handler"], "a %s handler registered a new name and at once evaluated a program using it (nested execute): got %s, expected 10" % (e["k"], json.dumps(r))))
         if e["act"] in ("exec_fresh", "exec_same") and isinstance(r, dict) and "err" in r:
             bad.append((["reentrant-exec-error"], "execute called from a %s handler failed: %s" % (e["k"], r["err"])))
         if e["act"] == "exec_same" and exp["action"] == "exec_same" and exp["nesting"] == 1 and r != {"ok": ["n", "42", 0]}:
